@@ -8,6 +8,11 @@ DRIVERS = [
     dict(name="calls_noop", src="calls.cpp", defines=["CALLS_NOOP"], ops=["callsn"]),
     dict(name="calls_dylib", src="calls.cpp", defines=["CALLS_DYLIB"], ops=["callsd"], flags=["-rdynamic"],
          prebuild=[("calls_guestlib.cpp", "libcalls0.so", ["LIB=0"]), ("calls_guestlib.cpp", "libcalls1.so", ["LIB=1"])]),
+    # the configurations of the property's "hooks OR timing": hooks without timing, timing without hooks, one hook only
+    dict(name="calls_verif32_h", src="calls.cpp", defines=["CALLS_VERIF32", "CALLS_HOOKS_ONLY"], ops=["calls32h"]),
+    dict(name="calls_verif32_t", src="calls.cpp", defines=["CALLS_VERIF32", "CALLS_TIMING_ONLY"], ops=["calls32t"]),
+    dict(name="calls_verif32_i", src="calls.cpp", defines=["CALLS_VERIF32", "CALLS_IN_ONLY"], ops=["calls32i"]),
+    dict(name="calls_verif32_o", src="calls.cpp", defines=["CALLS_VERIF32", "CALLS_OUT_ONLY"], ops=["calls32o"]),
     dict(name="sx", src="sx.cpp", defines=[], ops=["sx"]),
 ]
 
@@ -19,6 +24,8 @@ def gen_cases(tier, rng):
     cases += callscommon.gen("callsw", tier, rng, 3 if q else 4, 1500 if q else 20000, 5 if q else 6)
     cases += callscommon.gen("callsn", tier, rng, 3, 600 if q else 6000, 5)
     cases += callscommon.gen("callsd", tier, rng, 3, 800 if q else 8000, 6)
+    for v in "htio":
+        cases += callscommon.gen("calls32" + v, tier, rng, 3, 500 if q else 5000, 5)
     # scope_exit: every history to depth 4 (quick) / 5 (thorough) over move/release/destroy of the first four objects, random longer
     import itertools
     alpha = ["m:0", "m:1", "m:2", "r:0", "r:1", "r:2", "d:0", "d:1", "d:2", "m:3", "d:3", "r:3"]
